@@ -110,6 +110,18 @@ theorem pointIndex_in_buffer (w h x0 y0 : Nat) (x y a b : Int) (hp : pointIndex 
 /-- the unrepaired test: `SCREEN 1: VIEW (10,10)-(50,50): PRINT POINT(0,199)` reads row 209 of 200 -/
 theorem pointIndexOld_counterexample : pointIndexOld 320 200 10 10 0 199 = some (10, 209) := by decide
 
+/-- sound queues: whatever is queued (looping sounds included) the expiry handed to `emit_synch` is a time -/
+theorem queueExpiry_total (q : List (Option Int)) (now : Int) : ∃ t, queueExpiry q now = .ok t := by
+  unfold queueExpiry
+  cases q.getLast? with
+  | none => exact ⟨now, rfl⟩
+  | some e => cases e with
+    | none => exact ⟨now, rfl⟩
+    | some t => exact ⟨t, rfl⟩
+
+/-- dropping the fallback: a looping SOUND as last entry (then PLAY on a multi-voice machine) is a TypeError -/
+theorem queueExpiryNoFallback_counterexample : queueExpiryNoFallback [some 5, none] 9 = .error (.host 4) := by decide
+
 example : renumTrap [(20, 100), (30, 110)] 10 = .ok 10 ∧ renumTrap [(20, 100), (30, 110)] 30 = .ok 110 := by decide
 example : peekPreset none 5 = .ok none ∧ peekPreset (some [(5, 7)]) 5 = .ok (some 7) := by decide
 example : varptrType 3 = .ok 3 ∧ spriteBytes 2 10 16 3 = .ok 6 ∧ pointIndex 320 200 10 10 0 189 = some (10, 199) := by decide
